@@ -142,6 +142,11 @@ type world struct {
 	cbInner []uint64 // results the nested guest call handed back to the host function
 	cbDone  bool
 	hostErr string
+
+	// listener events of the current top-level call
+	recs   []*lisRec
+	lstack []*lisRec
+	lisErr string
 }
 
 // host is the behaviour shared by every style: record what was observed, produce the results.
